@@ -41,13 +41,16 @@ def commentRepl (prev : Option Char) (body : List Char) (next : Option Char) : L
     | _, _ => []
   else newlinesOf body
 
-/-- `re.sub(r"(\".*?\"|\'.*?\')|(/\*.*?\*/|//[^\r\n]*$)", replacer, text)` with MULTILINE | DOTALL: at each position the
+/-- `re.sub(r"(\".*?\"|\'.*?\')|(/\*.*?\*/|//[^\r\n]*\r?$)", replacer, text)` with MULTILINE | DOTALL: at each position the
     alternatives are tried in order — a double-quoted string, a single-quoted string (both kept), a block comment, a line
     comment that reaches the end of its line; otherwise the character is copied.  A comment is replaced by the line breaks it
     contains, or (`commentRepl`) by one blank when it is all that separates two characters that are no white space, or by
     nothing; a line comment contains no line break and is followed by one (or by the end of the text), so it is replaced by
-    nothing.  `prev`: the previous character of the INPUT (`text[match.start() - 1]`); `fuel` bounds the number of scanner
-    steps by the input length. -/
+    nothing.  The end of the line (`$`: in front of `\n`, or the end of the text) may be preceded by ONE carriage return, which
+    then belongs to the comment and disappears with it (fix F73: `\r?$` — before, a `//` comment on a CRLF-terminated line was
+    not recognised at all and stayed in the text); a `//…` that runs into a CR followed by anything but `\n` (a lone CR is no
+    line end for `$`) is still no comment: its first `/` is copied and the scan goes on behind it.  `prev`: the previous
+    character of the INPUT (`text[match.start() - 1]`); `fuel` bounds the number of scanner steps by the input length. -/
 def stripAux : Nat → Option Char → List Char → List Char
   | 0, _, l => l
   | _, _, [] => []
@@ -67,7 +70,9 @@ def stripAux : Nat → Option Char → List Char → List Char
         match rest with
         | [] => []
         | '\n' :: _ => stripAux fuel (some '/') rest    -- what follows is the newline: `prev` is not looked at there
-        | _ => c :: stripAux fuel (some c) r            -- the line ends in CR: `$` does not match, this is not a comment
+        | ['\r'] => []                                  -- `\r?$` at the very end of the text: the CR belongs to the match
+        | '\r' :: '\n' :: t => stripAux fuel (some '\r') ('\n' :: t)   -- CRLF: the CR belongs to the match (it is `prev` now)
+        | _ => c :: stripAux fuel (some c) r            -- CR followed by something else: `$` does not match, no comment
       | _ => c :: stripAux fuel (some c) r
     else c :: stripAux fuel (some c) r
 
